@@ -8,7 +8,9 @@
 (*                            failed]                                               *)
 (*  Init       the freshly constructed default object D[root] (constructor          *)
 (*             constants included), no errors                                       *)
-(*  Call       "calling one option with a value ... yields an object that differs   *)
+(*  Call       (the OBJECT is only fixed for calls whose arguments satisfy the      *)
+(*             schema; after a bad call the property only demands the report)       *)
+(*             "calling one option with a value ... yields an object that differs   *)
 (*             from the ... default object exactly at that option's target          *)
 (*             field(s), which hold the given value": one assignment per option     *)
 (*             path; a missing intermediate object on the path is created with ITS  *)
@@ -123,7 +125,7 @@ St(obj, errs) == [obj |-> obj, errs |-> errs]
 \* L = "go" | "python"; (rk, rt) = root type key and struct type; as = argument values of the call
 RECURSIVE DoAsgs(_, _, _, _, _, _, _, _)
 DoAsgs(L, S, D, rk, rt, st, asgs, as) ==
-  IF asgs = <<>> THEN [st |-> st, raised |-> FALSE]
+  IF asgs = <<>> THEN [st |-> st, raised |-> FALSE, bad |-> FALSE]
   ELSE LET a   == Head(asgs)
            ty  == TypeAt(S, rk, rt, a.path)
            vt  == IF a.m = "direct" THEN ty.t ELSE ElemType(S, ty.t)
@@ -132,9 +134,10 @@ DoAsgs(L, S, D, rk, rt, st, asgs, as) ==
            \* Build() that fails: members it was never given are not arguments); go reports the nested Build() / the final Validate()
            bad == BadArg(S, vt, IF L = "python" THEN as[a.src] ELSE b)
            mk  == IF a.key = 0 THEN NoJ ELSE as[a.key]
-       IN IF bad /\ L = "python" THEN [st |-> st, raised |-> TRUE]
-          ELSE IF bad /\ IsBuilderArg(S, vt) THEN [st |-> St(st.obj, st.errs \cup {a.path}), raised |-> FALSE]
-          ELSE DoAsgs(L, S, D, rk, rt, St(ApplyAt(S, D, rk, rt, st.obj, a.path, a.m, b, mk), st.errs), Tail(asgs), as)
+       IN IF bad /\ L = "python" THEN [st |-> st, raised |-> TRUE, bad |-> TRUE]
+          ELSE IF bad /\ IsBuilderArg(S, vt) THEN [st |-> St(st.obj, st.errs \cup {a.path}), raised |-> FALSE, bad |-> TRUE]
+          ELSE LET rest == DoAsgs(L, S, D, rk, rt, St(ApplyAt(S, D, rk, rt, st.obj, a.path, a.m, b, mk), st.errs), Tail(asgs), as)
+               IN [st |-> rest.st, raised |-> rest.raised, bad |-> bad \/ rest.bad]
 
 \* opts[0] does not exist: option 0 is the constructor (its assignments are in ctor)
 Call(L, S, D, rk, rt, ctor, opts, st, c) ==
@@ -142,11 +145,16 @@ Call(L, S, D, rk, rt, ctor, opts, st, c) ==
 
 InitSt(D, rk) == St(D[rk], {})
 
+\* acc = [st, raised : Seq(BOOLEAN), bad : Seq(BOOLEAN)]; bad[i] = call i carried a constraint-violating argument or a
+\* failing nested builder. The property fixes the OBJECT only for calls whose arguments satisfy the schema; after a bad call it
+\* only demands the report.
 RECURSIVE Run(_, _, _, _, _, _, _, _, _)
-Run(L, S, D, rk, rt, ctor, opts, seq, acc) ==     \* acc = [st, raised : Seq(BOOLEAN)]
+Run(L, S, D, rk, rt, ctor, opts, seq, acc) ==
   IF seq = <<>> THEN acc
   ELSE LET r == Call(L, S, D, rk, rt, ctor, opts, acc.st, Head(seq))
-       IN Run(L, S, D, rk, rt, ctor, opts, Tail(seq), [st |-> r.st, raised |-> Append(acc.raised, r.raised)])
+       IN Run(L, S, D, rk, rt, ctor, opts, Tail(seq),
+              [st |-> r.st, raised |-> Append(acc.raised, r.raised), bad |-> Append(acc.bad, r.bad)])
+InitAcc(D, rk) == [st |-> InitSt(D, rk), raised |-> <<>>, bad |-> <<>>]
 
 BuildFails(L, S, rt, st) == L = "go" /\ (st.errs # {} \/ ValidateErrs(S, rt, st.obj, <<>>) # {})
 
